@@ -38,6 +38,7 @@ type Conn struct {
 	srv   *Server
 	raw   net.Conn
 	cur   net.Conn // raw or the TLS connection
+	hc    *holdConn
 	inTLS bool
 	start time.Time
 
@@ -121,7 +122,17 @@ type Server struct {
 
 // Listen starts a server; handler runs in its own goroutine per connection.
 func Listen(handler func(c *Conn)) (*Server, error) {
-	ln, err := net.Listen("tcp", "127.0.0.1:0")
+	var ln net.Listener
+	var err error
+	// when the machine is short of ephemeral ports (thousands of connections per second leave sockets in
+	// TIME_WAIT) wait for some to come back instead of failing the case
+	for i := 0; i < 300; i++ {
+		ln, err = net.Listen("tcp", "127.0.0.1:0")
+		if err == nil {
+			break
+		}
+		time.Sleep(200 * time.Millisecond)
+	}
 	if err != nil {
 		return nil, err
 	}
@@ -186,6 +197,10 @@ func (s *Server) Close() {
 	s.mu.Unlock()
 	_ = s.ln.Close()
 	for _, c := range conns {
+		// the case is over: abort what is left, so that no socket lingers in TIME_WAIT on this side
+		if tc, ok := c.raw.(*net.TCPConn); ok {
+			_ = tc.SetLinger(0)
+		}
 		_ = c.raw.Close()
 	}
 	done := make(chan struct{})
@@ -460,12 +475,69 @@ func (c *Conn) Pending(d time.Duration) bool {
 	return has()
 }
 
+// holdConn lets the peer put several writes (e.g. the last TLS data record and the close_notify alert) into one
+// TCP segment: while hold is set, writes are buffered; Flush sends them with a single Write.
+type holdConn struct {
+	net.Conn
+	mu   sync.Mutex
+	hold bool
+	buf  []byte
+}
+
+func (h *holdConn) Write(p []byte) (int, error) {
+	h.mu.Lock()
+	if h.hold {
+		h.buf = append(h.buf, p...)
+		h.mu.Unlock()
+		return len(p), nil
+	}
+	h.mu.Unlock()
+	return h.Conn.Write(p)
+}
+
+func (h *holdConn) setHold(on bool) error {
+	h.mu.Lock()
+	h.hold = on
+	var b []byte
+	if !on {
+		b, h.buf = h.buf, nil
+	}
+	h.mu.Unlock()
+	if len(b) > 0 {
+		// tls.Conn.CloseWrite leaves a write deadline in the past on the underlying connection
+		_ = h.Conn.SetWriteDeadline(time.Now().Add(10 * time.Second))
+		_, err := h.Conn.Write(b)
+		return err
+	}
+	return nil
+}
+
+// SendAndCloseTogether writes s and ends the sending direction such that, inside TLS, the last data record and
+// the close_notify alert leave in a single TCP segment (a reader then gets data and end-of-stream from one Read).
+func (c *Conn) SendAndCloseTogether(s string) {
+	c.Note("send-and-close-together")
+	if tc, ok := c.cur.(*tls.Conn); ok && c.hc != nil {
+		_ = c.hc.setHold(true)
+		_, _ = tc.Write([]byte(s))
+		_ = tc.CloseWrite()
+		_ = c.hc.setHold(false)
+		c.add(Event{Dir: "sent", Kind: "bytes", Raw: s})
+		if t, ok := c.raw.(*net.TCPConn); ok {
+			_ = t.CloseWrite()
+		}
+		return
+	}
+	c.Send(s)
+	c.HalfClose()
+}
+
 // StartTLS performs the server side of a TLS handshake on the connection.
 func (c *Conn) StartTLS(cfg *tls.Config) error {
 	if len(c.rd.buf) > 0 {
 		c.Note(fmt.Sprintf("clear-text bytes pending before TLS: %q", string(c.rd.buf)))
 	}
-	tc := tls.Server(c.raw, cfg)
+	c.hc = &holdConn{Conn: c.raw}
+	tc := tls.Server(c.hc, cfg)
 	_ = tc.SetDeadline(time.Now().Add(10 * time.Second))
 	err := tc.Handshake()
 	_ = tc.SetDeadline(time.Time{})
